@@ -148,6 +148,9 @@ func (e *Evaluator) reading(clauses []*cypher.ReadingClause, rows []Env) ([]Env,
 					dup[envKey(r, e.carried)]++
 				}
 			}
+			if e.Dev.PredicateOverBothExpansionEndsDropped {
+				m = withoutCrossExpansionPredicates(m)
+			}
 			if _, _, ok := splitOptional(m); ok && e.Dev.MultiStepOptionalMatchIsPlainMatch {
 				cp := *m
 				cp.Optional = false
@@ -868,4 +871,84 @@ func nameAnonymous(part *cypher.PatternPart) (*cypher.PatternPart, bool) {
 		cp.PatternElements = append(cp.PatternElements, ne)
 	}
 	return &cp, true
+}
+
+// withoutCrossExpansionPredicates emulates PredicateOverBothExpansionEndsDropped: of the top-level AND of the WHERE clause
+// every conjunct that mentions both end nodes of a variable-length step which is followed by a further step of the same
+// pattern is removed.
+func withoutCrossExpansionPredicates(m *cypher.Match) *cypher.Match {
+	if m.Where == nil {
+		return m
+	}
+	type pair struct{ a, b string }
+	var pairs []pair
+	for _, part := range m.Pattern {
+		els := part.PatternElements
+		for i := 1; i+1 < len(els); i += 2 {
+			rel, ok := els[i].AsRelationshipPattern()
+			if !ok || rel.Range == nil || i+2 > len(els)-2 {
+				continue
+			}
+			l, lok := els[i-1].AsNodePattern()
+			r, rok := els[i+1].AsNodePattern()
+			if lok && rok && l.Variable != nil && r.Variable != nil {
+				pairs = append(pairs, pair{l.Variable.Symbol, r.Variable.Symbol})
+			}
+		}
+	}
+	if len(pairs) == 0 {
+		return m
+	}
+	var conjuncts []cypher.Expression
+	var flatten func(x cypher.Expression)
+	flatten = func(x cypher.Expression) {
+		switch t := x.(type) {
+		case *cypher.Conjunction:
+			for _, y := range t.Expressions {
+				flatten(y)
+			}
+		case *cypher.Parenthetical:
+			if c, ok := t.Expression.(*cypher.Conjunction); ok {
+				flatten(c)
+				return
+			}
+			conjuncts = append(conjuncts, x)
+		default:
+			conjuncts = append(conjuncts, x)
+		}
+	}
+	for _, x := range m.Where.Expressions {
+		flatten(x)
+	}
+	kept := cypher.NewWhere()
+	dropped := false
+	for _, c := range conjuncts {
+		vars := map[string]bool{}
+		walkExpr(c, func(n cypher.Expression) {
+			if v, ok := n.(*cypher.Variable); ok {
+				vars[v.Symbol] = true
+			}
+		})
+		drop := false
+		for _, p := range pairs {
+			if vars[p.a] && vars[p.b] {
+				drop = true
+			}
+		}
+		if drop {
+			dropped = true
+			continue
+		}
+		kept.Add(c)
+	}
+	if !dropped {
+		return m
+	}
+	cp := *m
+	if kept.Len() == 0 {
+		cp.Where = nil
+	} else {
+		cp.Where = kept
+	}
+	return &cp
 }
